@@ -1093,3 +1093,51 @@ Proof.
     + rewrite skipn_app, skipn_all, Nat.sub_diag. cbn. apply Forall_forall. intros x Hx. apply repeat_spec in Hx. exact Hx.
   - apply Hp.
 Qed.
+
+(* Arena::sformat (with fixes/C18-arena-sformat-overflow.patch): the result is a fresh live block that holds the first
+   min(length, 510) characters of the output, a terminator and zero padding; on failure nothing becomes live *)
+Theorem arena_sformat_sound mok a text : inv a ->
+  let r := arena_sformat mok a text in
+  let kept := firstn 510 text in
+  inv (snd r) /\
+  match fst r with
+  | Some (p, bytes) => exists asz, In (p, asz) (live (snd r)) /\ Forall (disjoint (p, asz)) (regions a) /\ a_off p mod 8 = 0 /\
+                         Z.of_nat (length bytes) = asz /\ Z.of_nat (length kept) + 1 <= asz /\ (length kept <= 510)%nat /\
+                         firstn (length kept) bytes = kept /\ Forall (fun b => b = 0) (skipn (length kept) bytes)
+  | None => live (snd r) = live a
+  end.
+Proof.
+  intros I. cbn zeta. unfold arena_sformat.
+  set (kept := firstn 510 text).
+  assert (Hk : (length kept <= 510)%nat) by (unfold kept; rewrite firstn_length; lia).
+  pose proof (arena_dup_sound mok a (kept ++ [0]) false I) as H. rewrite app_length in H. cbn [length] in H.
+  specialize (H ltac:(change (2 ^ 63) with 9223372036854775808; lia)). cbn zeta in H. destruct H as [H1 H2]. split; [exact H1|].
+  destruct (fst (arena_dup mok a (kept ++ [0]) false)) as [[p bytes]|]; [|exact H2].
+  destruct H2 as (asz & A1 & A2 & A3 & A4 & A5 & A6 & A7). exists asz.
+  split; [exact A1|]. split; [exact A2|]. split; [exact A3|]. split; [exact A4|]. split; [lia|]. split; [exact Hk|].
+  assert (Hb : bytes = (kept ++ [0]) ++ skipn (length kept + 1) bytes) by (rewrite <- A6 at 1; symmetry; apply firstn_skipn).
+  split.
+  - rewrite Hb, <- app_assoc. rewrite firstn_app, firstn_all, Nat.sub_diag. cbn [firstn]. apply app_nil_r.
+  - rewrite Hb at 1. rewrite <- app_assoc. rewrite skipn_app, skipn_all, Nat.sub_diag. cbn [skipn app]. constructor; [reflexivity|exact A7].
+Qed.
+
+(* ArenaString<N>::set_data: short strings stay embedded (arena untouched, NUL-terminated copy); longer ones are duplicated into a
+   fresh live arena block, NUL-terminated and zero-padded; on kOutOfMemory nothing becomes live *)
+Theorem arena_string_set_sound mok a maxe data : inv a -> 0 <= maxe -> Z.of_nat (length data) < 2 ^ 63 ->
+  let r := arena_string_set mok a maxe data in
+  inv (snd r) /\
+  match fst r with
+  | Some (None, bytes) => Z.of_nat (length data) <= maxe /\ bytes = data ++ [0] /\ snd r = a
+  | Some (Some p, bytes) => maxe < Z.of_nat (length data) /\
+      exists asz, In (p, asz) (live (snd r)) /\ Forall (disjoint (p, asz)) (regions a) /\ Z.of_nat (length bytes) = asz /\
+        Z.of_nat (length data) + 1 <= asz /\ firstn (length data) bytes = data /\ Forall (fun b => b = 0) (skipn (length data) bytes)
+  | None => maxe < Z.of_nat (length data) /\ live (snd r) = live a
+  end.
+Proof.
+  intros I Hm Hl. cbn zeta. unfold arena_string_set.
+  destruct (Z.leb_spec (Z.of_nat (length data)) maxe) as [Hle|Hgt]; cbn [fst snd]; [split; [exact I|]; split; [exact Hle|split; reflexivity]|].
+  pose proof (arena_dup_sound mok a data true I ltac:(lia)) as H. cbn zeta in H. destruct H as [H1 H2].
+  destruct (arena_dup mok a data true) as [[[p bytes]|] a']; cbn [fst snd] in *.
+  - split; [exact H1|]. split; [exact Hgt|]. destruct H2 as (asz & A1 & A2 & _ & A4 & A5 & A6 & A7). exists asz. repeat split; assumption.
+  - split; [exact H1|]. split; [exact Hgt|exact H2].
+Qed.
